@@ -24,17 +24,19 @@ def C(i=1):
     return ["const", ["sym", f"c{i}"]]
 
 
-NS_POWER = {"quick": [1, 2, 3, 5, 8], "thorough": [1, 2, 3, 4, 5, 6, 8, 9]}
-NS_ROOT = {"quick": [1, 2, 3, 4, 5, 8, 9], "thorough": [1, 2, 3, 4, 5, 6, 7, 8, 9, 12, 16]}
+NS_POWER = {"quick": [1, 2, 3, 5], "thorough": [1, 2, 3, 4, 5, 6]}
+NS_POWER_RICH = {"quick": [8], "thorough": [8, 9]}
+NS_ROOT = {"quick": [1, 2, 3, 4, 5], "thorough": [1, 2, 3, 4, 5, 6, 7]}
+NS_ROOT_RICH = {"quick": [8, 9], "thorough": [8, 9, 12, 16]}      # node lemmas only (nesting them gives polynomials of degree 81+)
 BASES_EXP = {"quick": [None, 2, 0.5, 1], "thorough": [None, 2, 0.5, 1, 10, 2.5]}
 BASES_LOG = {"quick": [None, 2, 0.5], "thorough": [None, 2, 0.5, 10, 2.5]}
 
 
-def unary_variants(c, tier="thorough"):
+def unary_variants(c, tier="thorough", rich=False):
     out = [["Negation", c], ["Reciprocal", c], ["Cosine", c], ["Sine", c]]
-    for n in NS_POWER[tier]:
+    for n in NS_POWER[tier] + (NS_POWER_RICH[tier] if rich else []):
         out.append(["NthPower", c, n])
-    for n in NS_ROOT[tier]:
+    for n in NS_ROOT[tier] + (NS_ROOT_RICH[tier] if rich else []):
         out.append(["NthRoot", c, n])
     for b in BASES_EXP[tier]:
         out.append(["Exponential", c] if b is None else ["Exponential", c, b])
@@ -46,7 +48,7 @@ def unary_variants(c, tier="thorough"):
 def f1(child, tier="thorough"):
     """node lemmas: every constructor, every parameter choice, over generic children child(i)"""
     out = []
-    out += unary_variants(child(1), tier)
+    out += unary_variants(child(1), tier, rich=True)
     for K in ("Minus", "Divide", "Power"):
         out.append([K, child(1), child(2)])
     for K in ("Add", "Multiply"):
